@@ -5487,6 +5487,7 @@ fn mode_migrate(work: &str, seed: u64, thorough: bool) {
 	let mut n_failed = 0u64;
 	let mut n_pre = 0u64;
 	let mut crash_points: BTreeMap<String, u64> = BTreeMap::new();
+	let mut partial_deletes: BTreeMap<String, u64> = BTreeMap::new();
 	let mut oracle_fails = 0u64;
 	// (name, record generator kind, crash kind, pre-existing records in the new environment)
 	let mut scen: Vec<(&str, &str, Option<&str>, bool)> = vec![
@@ -5640,6 +5641,16 @@ fn mode_migrate(work: &str, seed: u64, thorough: bool) {
 			out.line(&format!("kv mig_old [{}]", parts.join(",")), "ok");
 		}
 		let from_meta = meta_of(&old_env);
+		let old_backup: Option<std::path::PathBuf> = if *gen != "none" && *gen != "bad" {
+			let b = std::path::Path::new(&stage).join("old_copy");
+			std::fs::create_dir_all(&b).expect("backup dir");
+			for f in ["data.mdb", "lock.mdb"] {
+				let _ = std::fs::copy(old_env.join(f), b.join(f));
+			}
+			Some(b)
+		} else {
+			None
+		};
 		// ---- a process that dies inside the migration
 		if let Some(kind) = crash {
 			let mut child = std::process::Command::new(&exe)
@@ -5746,6 +5757,37 @@ fn mode_migrate(work: &str, seed: u64, thorough: bool) {
 					}
 					Err(_) => out.line("kv mig_run", "err"),
 				}
+				// a process that died INSIDE `remove_dir_all` of the old directory: the marker is set and
+				// the directory is still there with only some of its entries (data.mdb | lock.mdb | none).
+				// Rebuilt from a copy of the old environment taken before the migration.
+				if let Some(bak) = &old_backup {
+					let variants: [(&str, &[&str]); 3] = [("data.mdb only", &["data.mdb"]), ("lock.mdb only", &["lock.mdb"]), ("empty directory", &[])];
+					let (vname, files) = variants[si % 3];
+					std::fs::create_dir_all(&old_env).expect("recreate old dir");
+					for f in files.iter() {
+						let _ = std::fs::copy(bak.join(f), old_env.join(f));
+					}
+					*partial_deletes.entry(vname.to_string()).or_insert(0) += 1;
+					if files.contains(&"data.mdb") {
+						let parts: Vec<String> = recs.iter().map(|(k, v)| format!("{}={}", hex(k), valtok(v))).collect();
+						out.line(&format!("kv mig_old [{}]", parts.join(",")), "ok");
+					} else {
+						out.line("kv mig_old []", "ok");
+					}
+					out.line("kv mig_olddir", if old_env.exists() { "present" } else { "gone" });
+					match mig_open(&root, None, DBS.to_vec(), None) {
+						Ok(st) => {
+							out.line("kv mig_run", "ok");
+							out.line("kv obs", &dump_store(&st).unwrap_or_else(|_| "err".into()));
+						}
+						Err(e) => {
+							out.line("kv mig_run", "err");
+							oracle_fails += 1;
+							out.raw(&format!("#ORACLE-FAIL C18 migration [{}]: restart after a crash inside the removal of the old directory ({}) refused: {:?}", name, vname, e));
+						}
+					}
+					out.line("kv mig_olddir", if old_env.exists() { "present" } else { "gone" });
+				}
 			}
 			Err(_) => {
 				n_failed += 1;
@@ -5759,10 +5801,104 @@ fn mode_migrate(work: &str, seed: u64, thorough: bool) {
 		let _ = std::fs::remove_dir_all(&stage);
 	}
 	let cp: Vec<String> = crash_points.iter().map(|(k, v)| format!("{}={}", k, v)).collect();
+	let pd: Vec<String> = partial_deletes.iter().map(|(k, v)| format!("{}={}", k, v)).collect();
 	out.raw(&format!(
-		"#STAT [migrate] scenarios={} old records={} (unknown key space, skipped by design: {}) migrations that enlarged the map first={} refused (empty key after the prefix)={} new environment held records before={} processes killed inside Store::new by progress message -> state found on disk: {} oracle failures={}",
-		n_scen, n_recs, n_skipped, n_resized, n_failed, n_pre, cp.join(" "), oracle_fails
+		"#STAT [migrate] scenarios={} old records={} (unknown key space, skipped by design: {}) migrations that enlarged the map first={} refused (empty key after the prefix)={} new environment held records before={} processes killed inside Store::new by progress message -> state found on disk: {}; restarts from a half-removed old directory (marker set): {}; oracle failures={}",
+		n_scen, n_recs, n_skipped, n_resized, n_failed, n_pre, cp.join(" "), pd.join(" "), oracle_fails
 	));
+	out.flush();
+}
+
+
+// ---------------------------------------------------------------------------------------------
+// `dropprobe` (not part of the check: the child may die): a `DatabaseIterator` handed out by
+// `Store::iter` is not tied to the lifetime of the `Store`; what happens when every `Store` of the
+// environment is dropped first
+// ---------------------------------------------------------------------------------------------
+fn dropprobe_child(dir: &str, kind: &str) {
+	global::set_local_chain_type(ChainTypes::AutomatedTesting);
+	let store = open_store(dir);
+	{
+		let mut b = store.batch().unwrap();
+		for i in 0..5u8 {
+			b.put(Some(b'A'), &[b'k', i], &[i; 4]).unwrap();
+		}
+		b.commit().unwrap();
+	}
+	let keep = if kind == "second-handle" { Some(open_store(dir)) } else { None };
+	let mut it = store.iter(Some(b'A'), kvpair).unwrap();
+	println!("step iterator-open");
+	drop(store);
+	println!("step store-dropped");
+	if kind == "reopen-then-drop" {
+		// a new `Store` registers the environment afresh (open transaction count 0) while the old
+		// iterator's read transaction is still open; dropping the iterator then decrements that count
+		let store2 = open_store(dir);
+		println!("step second-store-opened");
+		let r = catch(std::panic::AssertUnwindSafe(|| drop(it)));
+		println!("step iterator-dropped {}", if r.is_ok() { "ok" } else { "PANIC" });
+		// grow until a resize is due: every batch() must return
+		for i in 0..80u32 {
+			println!("step batch {}", i);
+			let mut b = store2.batch().unwrap();
+			b.put(Some(b'Z'), &i.to_be_bytes(), &vec![7u8; 60_000]).unwrap();
+			if b.commit().is_err() {
+				println!("step commit-failed {}", i);
+				return;
+			}
+		}
+		println!("step grew-through-80-batches");
+		return;
+	}
+	let mut n = 0;
+	while let Some(r) = it.next() {
+		if r.is_ok() {
+			n += 1;
+		}
+	}
+	println!("step iterated {}", n);
+	let r = catch(std::panic::AssertUnwindSafe(|| drop(it)));
+	println!("step iterator-dropped {}", if r.is_ok() { "ok" } else { "PANIC" });
+	drop(keep);
+	// is the environment usable afterwards
+	let r = catch(std::panic::AssertUnwindSafe(|| {
+		let s = open_store(dir);
+		let b = s.batch().map(|b| b.commit().is_ok()).unwrap_or(false);
+		b
+	}));
+	println!("step reopen-and-batch {:?}", r.map_err(|_| "PANIC"));
+}
+
+fn mode_dropprobe(work: &str) {
+	let exe = std::env::current_exe().expect("current_exe");
+	let mut out = Out::stdout();
+	for kind in ["only-handle", "second-handle", "reopen-then-drop"] {
+		let dir = format!("{}/dropprobe_{}", work, kind);
+		let mut child = std::process::Command::new(&exe)
+			.args(["dropprobe-child", &dir, kind])
+			.stdout(std::process::Stdio::piped())
+			.spawn()
+			.expect("spawn");
+		let t0 = Instant::now();
+		let mut hung = false;
+		loop {
+			match child.try_wait() {
+				Ok(Some(_)) => break,
+				_ => {}
+			}
+			if t0.elapsed() > Duration::from_secs(40) {
+				hung = true;
+				let _ = child.kill();
+				break;
+			}
+			thread::sleep(Duration::from_millis(50));
+		}
+		let o = child.wait_with_output().expect("wait");
+		let all = String::from_utf8_lossy(&o.stdout).to_string();
+		let lines: Vec<&str> = all.lines().collect();
+		let shown: Vec<&str> = if lines.len() > 12 { [&lines[..6], &["..."], &lines[lines.len() - 3..]].concat() } else { lines.clone() };
+		out.raw(&format!("#STAT [dropprobe] {}: exit={:?}{} steps: {}", kind, o.status.code(), if hung { " HUNG (killed after 40 s)" } else { "" }, shown.join(" | ")));
+	}
 	out.flush();
 }
 
@@ -5776,6 +5912,10 @@ fn main() {
 	if std::env::var("KV_DEBUG_LOG").is_ok() {
 		// debugging aid only: grin's debug log (resize decisions) interleaved on stdout
 		grin_util::init_test_logger();
+	}
+	if mode == "dropprobe-child" {
+		dropprobe_child(&args[2], &args[3]);
+		return;
 	}
 	if mode == "migrate-child" {
 		migrate_child(&args[2], &args[3]);
@@ -5803,6 +5943,7 @@ fn main() {
 		"handles" => mode_handles(&work, seed, thorough),
 		"slowreader" => mode_slowreader(&work, seed, thorough),
 		"migrate" => mode_migrate(&work, seed, thorough),
+		"dropprobe" => mode_dropprobe(&work),
 		"newprobe" => mode_newprobe(&work, seed, thorough),
 		_ => {
 			eprintln!("unknown mode {}", mode);
